@@ -14,7 +14,7 @@ E5  the real library with long chains (n = 2500 and 4n = 10^4: `then` continuati
     on threads with 256 KB stacks (RLIMIT_STACK; pool workers included); one observation record per
     scenario (crash, completed, deepest nesting of body entries, deepest InlineDepthGuard depth
     reported by the library hooks, deepest stack use), validated by TLC (InlineDepthObs.tla):
-    nesting <= kMaxInlineDepth + 8 for n AND 4n, guard <= kMaxInlineDepth, stack <= 160 KB.
+    nesting <= kMaxInlineDepth + 8 for n AND 4n, guard <= kMaxInlineDepth + 1, stack <= 160 KB.
 """
 import json
 import os
@@ -29,7 +29,7 @@ WHAT = 'dispenso-initiated inline execution nests to a depth independent of the 
 MODEL = {
     'then_immediate': ('immediate', 1), 'then_get_tail': ('futwait', 1), 'then_pool_saturated': ('pool', 1),
     'pipeline_serial_p1': ('pipe', 1), 'pipeline_serial_p2': ('pipe', 2), 'pipeline_serial_p0': ('graph', 0),
-    'graph_chain_p2': ('graph', 2), 'graph_comb_p1': ('graph', 1), 'graph_comb_p0': ('graph', 0),
+    'graph_chain_p2': ('graph', 2), 'graph_comb_p1': ('cts', 1), 'graph_comb_p0': ('cts', 0),
     'cts_recursive_heavy_p1': ('cts', 1), 'cts_recursive_light_p1': ('cts', 1), 'cts_recursive_heavy_p0': ('cts', 0),
     'ts_recursive_p1': ('ts', 1), 'pool_recursive_p1': ('pool', 1), 'pool_recursive_p0': ('pool', 0),
 }
